@@ -17,6 +17,31 @@ TEXT = {
         "note": COMMON_NOTE,
         "technique": "Lean 4 proof (invariant + refinement) of the Model; differential correspondence Model vs code",
     },
+    "C03": {
+        "level": "Theorem: for every sorted store and every RowSet (any keys and ranges, open/closed/unbounded, overlapping, inverted, duplicated) the ranges produced by "
+                 "mergeRowRanges have the same union, are pairwise separated and ordered, and scanning them in turn visits exactly rows.filter(inRowSet), hence each row once in "
+                 "ascending order (successor lemma k<x <-> k++[0]<=x, merge-loop invariants, flatMap-over-separated-ranges lemma); empty RowSet = whole table; inverted range rejected; "
+                 "rows_limit = take. Tied to the code by the complete enumeration the property asks for (every set of <=2 ranges x <=1 key over the 7 adversarial keys, 3 engines) "
+                 "plus random programs and multi-message tables. Chunk-stream well-formedness is checked by the harness's client-side decoder.",
+        "note": COMMON_NOTE,
+        "technique": "Lean 4 proof (order lemmas, loop invariants, induction over sorted rows); exhaustive + random differential correspondence",
+    },
+    "C05": {
+        "level": "Theorems on the flat (family, qualifier, cell) view of a row: the derivative regex matcher decides the declarative language (whole-field, bytewise); row limit = take, "
+                 "offset = drop, per-cell filters = filter+map with their admission tests, column limit per column, chain = left-to-right composition, condition = branch by "
+                 "'predicate yields a cell', interleave = multiset union of matching branches per column, sample = all or nothing; every invalid argument at any depth makes the "
+                 "request InvalidArgument before any row is looked at. Tied to the code by the complete leaf basis and all depth-2 compositions, plus random trees to depth 4.",
+        "note": COMMON_NOTE,
+        "technique": "Lean 4 proof (structural induction, mutual recursion over the filter tree, Brzozowski derivatives); exhaustive + random differential correspondence",
+    },
+    "C11": {
+        "level": "Theorems: for every prefix, delimiter and page size, every page holds at most maxResults entries, never repeats a prefix, and everything it reports is right "
+                 "(soundness); without delimiter the complete pagination theorem (tokens followed to the end yield exactly the names with the prefix, once, ascending, last page "
+                 "without token) for every sorted name set. The complete pagination theorem WITH delimiter is stated (FullStatement) but not proved in Lean: for it the check relies "
+                 "on the exhaustive correspondence run (all subsets of two 9-name universes x all prefixes x 4 delimiters x 4 page sizes, both stores).",
+        "note": COMMON_NOTE + " Partial: delimiter completeness across pages is covered by exhaustive correspondence, not by a theorem.",
+        "technique": "Lean 4 proof (fold invariants, induction on fuel) — partial for delimiters; exhaustive differential correspondence on both stores",
+    },
     "C12": {
         "level": "Theorems: CheckAndMutateRow is, for every valid predicate tree, row state and pair of mutation lists, exactly 'matched = predicate yields a cell; apply the selected list "
                  "with MutateRow semantics'; invalid predicate => InvalidArgument, invalid mutation in the selected branch => error, other branch irrelevant, frame for other rows, and "
